@@ -85,6 +85,8 @@ def cases(tier, seed):
         yield ('F', m)
     for rel in corpus_files(1000 if tier == 'quick' else None):
         yield ('X', rel)
+    for m in sp.structures_upto(3 if tier == 'quick' else 4):
+        yield ('SE', m)
 
 
 def plan(tier):
@@ -107,6 +109,10 @@ def describe(case):
 
 def reduce(case):
     if case[0] == 'X':
+        return
+    if case[0] == 'SE':
+        for c in cm.reduce_model_case(('S', case[1])):
+            yield ('SE', c[1])
         return
     m = case[1]
     if sh.size(m) > 40:
@@ -139,16 +145,20 @@ def _run(op, fm, clause, out):
         return False, None
 
 
-def oracle(fm, model):
+def oracle(fm, model, ops=None):
     out = []
+    ops = ops if ops is not None else {}
+
+    def inst(cls):
+        return ops.setdefault(cls.__name__, cls()) if ops is not None else cls()
     feats = sh.features(model)
     names = [f[0] for f in feats]
     pm = sh.parent_map(model)
     leaves = sorted(f[0] for f in feats if not f[1])
-    ok, res = _run(FMCountLeafs(), fm, 'count-leafs', out)
+    ok, res = _run(inst(FMCountLeafs), fm, 'count-leafs', out)
     if ok and (isinstance(res, bool) or res != len(leaves)):
         out.append(Fail('count-leafs', {'got': res, 'want': len(leaves)}))
-    ok, res = _run(FMLeafFeatures(), fm, 'leaf-features', out)
+    ok, res = _run(inst(FMLeafFeatures), fm, 'leaf-features', out)
     if ok:
         got = [f.name for f in res]
         if sorted(got) != leaves:
@@ -158,11 +168,11 @@ def oracle(fm, model):
     for n in names:            # preorder: parents first
         depth[n] = 0 if pm[n] is None else depth[pm[n]] + 1
     want_depth = max(depth.values())
-    ok, res = _run(FMMaxDepthTree(), fm, 'max-depth', out)
+    ok, res = _run(inst(FMMaxDepthTree), fm, 'max-depth', out)
     if ok and (isinstance(res, bool) or res != want_depth):
         out.append(Fail('max-depth', {'got': res, 'want': want_depth}))
     nonleaf = [f for f in feats if f[1]]
-    ok, res = _run(FMAverageBranchingFactor(), fm, 'branching-factor', out)
+    ok, res = _run(inst(FMAverageBranchingFactor), fm, 'branching-factor', out)
     if ok:
         if isinstance(res, bool) or not isinstance(res, (int, float)):
             out.append(Fail('branching-factor', {'got': repr(res)}))
@@ -184,7 +194,7 @@ def oracle(fm, model):
         while p is not None:
             want.append(p)
             p = pm[p]
-        op = FMFeatureAncestors()
+        op = inst(FMFeatureAncestors)
         try:
             op.set_feature(byname[n])
             got = [f.name for f in op.execute(fm).get_result()]
@@ -201,7 +211,7 @@ def oracle(fm, model):
         variants = [k[0] for (a, b, ks) in f[1] if not ((a, b) == (1, 1) and len(ks) == 1) for k in ks]
         if variants:
             want_vp[f[0]] = sorted(variants)
-    ok, res = _run(FMVariationPoints(), fm, 'variation-points', out)
+    ok, res = _run(inst(FMVariationPoints), fm, 'variation-points', out)
     if ok:
         try:
             got = {k.name: sorted(v.name for v in vs) for k, vs in res.items()}
@@ -226,6 +236,24 @@ def check(case):
         engine.validated()
         return oracle(fm, model)
     model = case[1]
+    if case[0] == 'SE':
+        from .c03 import inplace_edits
+        for (what, edit, em) in inplace_edits(model):
+            fm, fails = cm.built(model)
+            if fails:
+                return fails
+            ops = {}
+            warm = oracle(fm, model, ops)
+            if warm:
+                return warm
+            edit(fm)
+            after = oracle(fm, em, ops)
+            for f in after:
+                f.clause = 'after-inplace-edit:' + f.clause
+                f.detail = {'edit': what, 'info': f.detail}
+            if after:
+                return after
+        return []
     fm, fails = cm.built(model)
     if fails:
         return fails
